@@ -62,7 +62,7 @@ Qed.
 
 Lemma tag_fetch_bytes_no_ub tag off p lend dl mem :
   cursor_ok dl off -> (tag = 2 ^ 64 - 1 \/ 0 <= tag <= off) ->
-  is_ub (c_ares_buf_tag_fetch_bytes tag off p lend dl mem) = false.
+  is_ub (c_ares_buf_tag_fetch_bytes tag p off lend dl mem) = false.
 Proof.
   intros [H1 H2] Ht. rewrite pow64 in H2, Ht. unfold c_ares_buf_tag_fetch_bytes, guard.
   repeat break_if; try reflexivity; exfalso; lia.
